@@ -630,3 +630,88 @@ def aggregates_in(f, blocks, adt=None):
 
 def calls_in(f, blocks):
     return [(b, f.blocks[b]["t"]) for b in sorted(blocks) if f.blocks[b]["t"]["k"] == "call"]
+
+
+# ------------------------------------------------------------------------------------------
+# partial arithmetic: division / remainder by a possibly-zero value (DESIGN §3.9)
+# ------------------------------------------------------------------------------------------
+
+def _is_zero_const(o):
+    import re as _r
+    return o["k"] == "const" and _r.match(r"^(?:const )?0(_|$)", str(o.get("v", ""))) is not None
+
+
+def _nonzero_const(o):
+    import re as _r
+    m = _r.match(r"^(?:const )?(-?\d+)(_|$)", str(o.get("v", ""))) if o["k"] == "const" else None
+    return bool(m) and int(m.group(1)) != 0
+
+
+def divisions(f):
+    """Div / Rem statements: [(bb, idx, stmt)]."""
+    return [(b, i, s) for b, i, s in f.stmts() if s["k"] == "a" and s["rv"]["k"] == "bin" and s["rv"]["op"] in ("Div", "Rem")]
+
+
+def nonzero_guard(f, bb, divisor_op):
+    """Is the divisor proven non-zero at `bb`?  Accepted proofs: non-zero literal; a NonZero*
+    typed source; a comparison of the same value with 0 (==, !=, >, <, >=1) whose non-zero
+    edge guards `bb`; max(x, c>=1).  Returns (ok, reason)."""
+    if divisor_op["k"] == "const":
+        return (_nonzero_const(divisor_op), "literal %s" % divisor_op.get("v"))
+    l = op_base(divisor_op)
+    src = copy_sources(f, l)
+    du = defuse(f)
+    # NonZero provenance
+    for x in src:
+        if x[0] == "call" and ("NonZero" in x[1] and x[1].endswith("::get")):
+            return True, "NonZero::get"
+    if any("core::num::nonzero::NonZero" in f.locals[y] for y in du.closure(l)) and all(x[0] in ("call", "place", "arg") for x in src) and \
+            all((x[0] != "call") or ("NonZero" in x[1] or x[1].startswith("core::convert::")) for x in src):
+        return True, "derived from a NonZero value by conversion"
+    for x in src:
+        if x[0] == "call" and x[1] in ("core::cmp::Ord::max", "core::cmp::max"):
+            for b, t in f.calls():
+                if is_call_to(t, "core::cmp::Ord::max", "core::cmp::max") and t["dest"]["l"] in du.closure(l) | {l}:
+                    if any(_nonzero_const(a) for a in t["args"]):
+                        return True, "max(_, non-zero literal)"
+    # comparisons with zero on the same value
+    for cb, s, ts in cmp_tests(f, ops=("Eq", "Ne", "Gt", "Lt", "Ge", "Le")):
+        a, b2 = s["rv"]["a"], s["rv"]["b"]
+        op = s["rv"]["op"]
+        val = None
+        if _is_zero_const(b2) and a["k"] != "const":
+            val, zero_right = a, True
+        elif _is_zero_const(a) and b2["k"] != "const":
+            val, zero_right = b2, False
+        else:
+            continue
+        if copy_sources(f, op_base(val)) != src:
+            continue
+        # which edge means non-zero (unsigned operands)
+        if op == "Eq":
+            nz_is_true = False
+        elif op == "Ne":
+            nz_is_true = True
+        elif (op == "Gt" and zero_right) or (op == "Lt" and not zero_right):
+            nz_is_true = True
+        elif (op == "Le" and zero_right) or (op == "Ge" and not zero_right):
+            nz_is_true = False
+        else:
+            continue
+        if nz_is_true and requires(f, bb, ts):
+            return True, "guarded by `%s 0` test" % op
+        if not nz_is_true and requires_failure(f, bb, ts):
+            return True, "guarded by the false edge of `%s 0` test" % op
+    return False, "divisor %s has no non-zero proof (sources %s)" % ("_%d" % l, sorted(map(str, src)))
+
+
+def recv_field(f, op):
+    """Name of the field a reference operand points at (`&x.a.b` -> 'b'), else None."""
+    if op["k"] not in ("copy", "move"):
+        return None
+    pl = op["p"] if op["p"].get("p") else ref_source_place(f, op["p"]["l"])
+    if pl is None:
+        return None
+    pl = resolve_place(f, pl)
+    names = [e[2] for e in pl.get("p", []) if e[0] == "f"]
+    return names[-1] if names else None
